@@ -635,6 +635,28 @@ def r10_2(ctx):
                       {"InterpreterClass"})
   _check_construction(ctx, get_module(ctx, CONVERT), CONVERT,
                       "Converter._pytd_class_to_value", {"PyTDClass"})
+  if ctx.tier == "thorough":
+    # any other direct construction in the main engine must be covered too
+    for rel in all_py_files(ctx):
+      if rel in (VMU, CONVERT) or rel.endswith("_test.py") or \
+          "/rewrite/" in rel or "/tests/" in rel:
+        continue
+      text = ctx.read(rel)
+      if "InterpreterClass(" not in text and "PyTDClass(" not in text and \
+          "PyTDClass.make(" not in text:
+        continue
+      m = get_module(ctx, rel)
+      for c in calls_in(m.tree):
+        parts = (dotted(c.func) or "").split(".")
+        if parts[-1] in ("InterpreterClass", "PyTDClass") or \
+            parts[-2:] == ["PyTDClass", "make"]:
+          fn = m.enclosing_function(c)
+          hs = [h for t in _enclosing_trys(m, c, fn) for h in t.handlers
+                if "MROError" in _handler_types(h)]
+          ctx.check(bool(hs), f"{rel}:{_qualname(m, c)}:handler", rel, c.lineno,
+                    f"{src(c.func)}(..) constructs a class (compute_mro may "
+                    "raise MROError) outside any `except mro.MROError`",
+                    {"call": src(c.func)})
   mod = get_module(ctx, ERRORS)
   owner = None
   for cname in mod.classes:
